@@ -70,6 +70,8 @@ type routeGen struct {
 	types     []routeType
 	idType    string
 	twinNames []string
+	// noInts: no plain integer anywhere (fields, parameters) except as the KEY of a returned map
+	noInts bool
 }
 
 type routeType struct {
@@ -90,6 +92,10 @@ func NewRouteProg(idx int, r *rand.Rand, c14 bool) *Program {
 	p := &Program{ID: id, Family: "routeprog", Root: &Pkg{Name: "main", Path: pkgPath, Dir: id}, Meta: map[string]any{}, RawFiles: map[string]string{}}
 	p.Sources = []string{id + "/routes.go"}
 
+	g.noInts = c14 && idx%5 == 4
+	if g.noInts {
+		p.Feature("route:integers-only-as-map-keys")
+	}
 	// payload types
 	g.idType = "Id" + g.pick("Dossier", "Item", "Client")
 	var decls strings.Builder
@@ -97,7 +103,11 @@ func NewRouteProg(idx int, r *rand.Rand, c14 bool) *Program {
 	structs := []string{}
 	for i := 0; i < 2+g.r.Intn(3); i++ {
 		name := fmt.Sprintf("%s%d", g.pick("Payload", "Answer", "Query", "Report"), i)
-		fmt.Fprintf(&decls, "type %s struct {\n\tA int\n\tB string `json:\"b\"`\n\tC []%s\n}\n\n", name, g.pick("int", "string", g.idType))
+		fa, fc := "int", g.pick("int", "string", g.idType)
+		if g.noInts {
+			fa, fc = "bool", "string"
+		}
+		fmt.Fprintf(&decls, "type %s struct {\n\tA %s\n\tB string `json:\"b\"`\n\tC []%s\n}\n\n", name, fa, fc)
 		structs = append(structs, name)
 		g.types = append(g.types, routeType{expr: name, str: pkgPath + "." + name, decl: true})
 	}
@@ -107,15 +117,26 @@ func NewRouteProg(idx int, r *rand.Rand, c14 bool) *Program {
 		routeType{expr: "Page[" + structs[0] + "]", str: pkgPath + ".Page[" + pkgPath + "." + structs[0] + "]", decl: true},
 		routeType{expr: "Page[" + structs[1] + "]", str: pkgPath + ".Page[" + pkgPath + "." + structs[1] + "]", decl: true},
 	)
-	g.types = append(g.types,
-		routeType{expr: "[]int64", str: "[]int64"},
-		routeType{expr: "int", str: "int"},
-		routeType{expr: "string", str: "string"},
-		routeType{expr: "map[string][]int", str: "map[string][]int"},
-		routeType{expr: "[]" + structs[0], str: "[]" + pkgPath + "." + structs[0]},
-		routeType{expr: "uint", str: "uint"},
-		routeType{expr: g.idType, str: pkgPath + "." + g.idType},
-	)
+	if g.noInts {
+		g.types = g.types[:len(structs)] // no Page[T] (it has an int field)
+		g.types = append(g.types,
+			routeType{expr: "string", str: "string"},
+			routeType{expr: "[]" + structs[0], str: "[]" + pkgPath + "." + structs[0]},
+			routeType{expr: "map[int64]string", str: "map[int64]string"},
+			routeType{expr: "map[int]bool", str: "map[int]bool"},
+			routeType{expr: "map[int64]string", str: "map[int64]string"},
+		)
+	} else {
+		g.types = append(g.types,
+			routeType{expr: "[]int64", str: "[]int64"},
+			routeType{expr: "int", str: "int"},
+			routeType{expr: "string", str: "string"},
+			routeType{expr: "map[string][]int", str: "map[string][]int"},
+			routeType{expr: "[]" + structs[0], str: "[]" + pkgPath + "." + structs[0]},
+			routeType{expr: "uint", str: "uint"},
+			routeType{expr: g.idType, str: pkgPath + "." + g.idType},
+		)
+	}
 
 	var reg strings.Builder  // body of the routes function
 	var reg2 strings.Builder // body of a second registration function, whose local constant shadows nothing but has the same NAME as the first one's
@@ -146,6 +167,11 @@ func NewRouteProg(idx int, r *rand.Rand, c14 bool) *Program {
 		default:
 			s := fmt.Sprintf("/api/%s/route%d/:param", g.pick("v1", "admin", "public", "caf%C3%A9", "my%20file", "100%d", "%s"), i)
 			pathExpr, rt.URL, rt.PathForm = fmt.Sprintf("%q", s), s, "literal"
+			if g.pr(0.2) {
+				// an interpreted literal spelled with escape sequences: its VALUE is the URL
+				pathExpr = fmt.Sprintf(`"/api\x2fesc\u00e9/\"q\"/route%d/:param"`, i)
+				rt.URL, rt.PathForm = fmt.Sprintf(`/api/escé/"q"/route%d/:param`, i), "literal-with-escapes"
+			}
 		}
 		inSecond := twoFuncs && i >= nRoutes-2
 		if twoFuncs && i == 0 {
@@ -169,7 +195,7 @@ func NewRouteProg(idx int, r *rand.Rand, c14 bool) *Program {
 		var handlerExpr string
 		form := g.r.Intn(10)
 		switch {
-		case form == 0 && !usedInnerMethod:
+		case form == 0 && !usedInnerMethod && !g.noInts:
 			usedInnerMethod = true
 			if c14 {
 				rt.Verb = "POST" // HandleExt binds a body
@@ -329,6 +355,9 @@ func (g *routeGen) handlerBody(rt *RouteTruth, c string, c14, plain bool) string
 		if plain && (kind == 1 || kind == 2) {
 			kind = 0 // the typed helpers are methods of the controller
 		}
+		if g.noInts && kind >= 2 {
+			kind = 0
+		}
 		switch kind {
 		case 0:
 			if g.pr(0.3) && i == 0 {
@@ -358,7 +387,11 @@ func (g *routeGen) handlerBody(rt *RouteTruth, c string, c14, plain bool) string
 		fmt.Fprintf(&sb, "fmt.Println(%s)\n", strings.Join(used, ", "))
 	}
 	// return
-	switch g.r.Intn(6) {
+	ret := g.r.Intn(6)
+	if g.noInts && ret == 1 {
+		ret = 3 // no []byte blob (printed with the integer alias)
+	}
+	switch ret {
 	case 0:
 		sb.WriteString("return nil\n")
 	case 1:
